@@ -155,7 +155,7 @@ def oracle(ctx, cd: C, m: bitarray, even: bool = True):
     try:
         e = cd.encode(m, even)
     except BaseException as ex:  # noqa
-        fail("encode-raises", f"VBPTC{cd.name}.encode raises {impl_error(ex)} on a {cd.k}-bit message")
+        fail("encode-raises", f"VBPTC{cd.name}.encode raises {impl_error(ex)} on a {len(m)}-bit message (message length of the class: {cd.k})")
         return None, fails
     if len(e) != cd.n:
         fail("encode-length", f"encode returns {len(e)} bits instead of {cd.n}", cd.n, len(e))
